@@ -17,7 +17,7 @@ ASSUMPTIONS = [
     "foreign schedulers follow the protocol of CounterToken.acquire/release (inter-process lock, recount, write)",
     "several OS processes racing on one directory are covered by the real-process part, not by the engine",
 ]
-MIN_CLASSES = {"quick": {"aborted-start": 800, "foreign-holding": 500, "file-token": 2000}, "thorough": {"aborted-start": 8000, "foreign-holding": 5000}}
+MIN_CLASSES = {"quick": {"aborted-start": 800, "foreign-holding": 500, "file-token": 1500}, "thorough": {"aborted-start": 8000, "foreign-holding": 5000}}
 
 
 def nontrivial(case, H, labels):
@@ -98,8 +98,13 @@ def prop_starting(ctx, case):
         # the start completes: process running, pid file written, job lock handed over to the job
         child = subprocess.Popen(["sleep", "3600"], start_new_session=True)
         (jd / "job.pid").write_text(json.dumps({"type": "local", "pid": child.pid}))
-        time.sleep(0.3)
-        still_there = (tokdir / "ourjob.token").exists()
+        # a removal (the defect) follows the observer's read within milliseconds; leave it time on a loaded machine
+        still_there = True
+        for _ in range(30):
+            time.sleep(0.05)
+            still_there = (tokdir / "ourjob.token").exists()
+            if not still_there:
+                break
         (tokdir / "go-now").touch()
         # the observer stops waiting when asked (it waits for `go` and for the files to vanish: give it `go`
         # only after our job has ended, at the very end)
